@@ -26,7 +26,8 @@ NOT decided: that the level equals the number of stored leaf parts when user cod
 ASSUMPTIONS = ['user code does not mutate a Batch while it is stored', 'np.nextafter(now, inf) - now is one ulp of now']
 MIN_INSTANCES = 60
 
-OPQ = ('_get_part_count',)
+COUNT_NAMES = {'_get_part_count'}
+OPQ = ('_get_part_count',)        # replaced in check() by the names of the count functions actually found (dv.count_functions)
 
 
 def count_model(call, st, frame, an=None):
@@ -40,6 +41,9 @@ def check(ctx):
     c = P.cls('Buffer')
     N = Normalizer(P, c)
     obs = []
+    global OPQ, COUNT_NAMES
+    COUNT_NAMES = set(dv.count_functions(ctx)) or {'_get_part_count'}
+    OPQ = tuple(sorted(COUNT_NAMES))
 
     # ---- C05.1 capacity guard ---------------------------------------------------------
     o = Ob('C05.1', 'K6+K2', 'Buffer._can_accept_part refuses on the true edge of `level + count(part) - capacity > 0`, else defers to the base test')
@@ -51,7 +55,7 @@ def check(ctx):
         if not r:
             return False
         lin, op = r
-        cnt = [k for k in lin.terms if '_get_part_count(part)' in k]
+        cnt = [k for k in lin.terms if any(k.endswith(f'{nm_}(part)') for nm_ in COUNT_NAMES)]
         return op == '<' and len(cnt) == 1 and lin.is_({cnt[0]: -1, 'self._capacity': 1, 'self._level': -1})
     guards = [(n, t) for n in g.nodes.values() if n.kind == 'cond' for t in (True, False) if is_cap_guard(n, t)]
     o.count()
@@ -353,7 +357,7 @@ def level_pairing(ctx, c, o):
         # self._buffer[0][1] -> 'e:<head id>' ;  self._buffer[0][0] -> arrival of the head
         if isinstance(e, ast.Subscript) and ast.unparse(e) == 'self._buffer[0][1]':
             return 'e' + st.fields['#hid']
-        if isinstance(e, ast.Call) and call_attr(e) == '_get_part_count' and e.args:
+        if isinstance(e, ast.Call) and call_attr(e) in COUNT_NAMES and e.args:
             v = an.ev(e.args[0], st, frame)
             # a count taken after the head was handed over is a different number: the receiver may have unpacked the batch in place
             return ('c-after-hand-over:' if str(st.fields.get('#it', 'idle')).startswith('H:') else 'c:') + v
@@ -521,10 +525,14 @@ def part_counting(ctx, o):
         return found
     if P.has_cls('Buffer'):
         c = P.cls('Buffer')
+        cf = dv.count_functions(ctx)
         hit = P.lookup(c, '_get_part_count')
         o.count()
-        ok = False
-        if hit and hit[1] == 'method':
+        ok = bool(cf) and not (hit and hit[1] == 'method' and '_get_part_count' not in cf)
+        o.stats['count_functions'] = {k: [c_.name for c_, _ in v] for k, v in cf.items()}
+        if ok:
+            pass
+        elif hit and hit[1] == 'method':
             fn = hit[2]
             params = [a_.arg for a_ in fn.args.args if a_.arg != 'self']
             p = params[0] if params else 'part'
@@ -559,6 +567,16 @@ def part_counting(ctx, o):
                     if r_ is not None:
                         inc = r_[0]
                 outs = []
+                cfn = dv.count_functions(ctx)
+                if isinstance(inc, ast.Call) and call_attr(inc) in cfn and len(inc.args) == 1 and not inc.keywords and \
+                        (ast.unparse(inc.args[0]) == 'self._part' or an.ev(inc.args[0], before, n.frame) == 'arg'):
+                    # the count is taken by one of the package's count functions (len(parts) for a Batch, 1 otherwise -- established by return_cases)
+                    for kind, fl in (('len', 'batch'), ('one', 'single')):
+                        if ('batch' in after.flags and fl == 'single') or ('single' in after.flags and fl == 'batch'):
+                            continue
+                        s_ = after.with_flag('cnt2' if any(f.startswith('cnt:') for f in after.flags) else 'cnt:' + kind).with_flag(fl)
+                        outs.append(s_)
+                    return outs
                 for br, fl in _ifexp_branches(inc, lambda x: ast.unparse(x) == 'self._part' or an.ev(x, before, n.frame) == 'arg'):
                     v = ast.unparse(br)
                     kind = 'len' if v == 'len(self._part.parts)' else 'one' if v == '1' else 'other'
